@@ -183,7 +183,7 @@ def _isel(run, P):
         run.holds("F-PATH/isel-grid-dims", c, where(f), "indexers (positional or keyword) over a grid dimension slice the grid of that dimension and the data from the sliced grid")
 
 
-def _get_dual_dims(run, P):
+def _get_dual_dims(run, P, partial_rule=True):
     for key in (f"{DA}:UxDataArray.get_dual", f"{DS}:UxDataset.get_dual"):
         f = P.func(key)
         c = f"{f.key}:dims-by-name"
@@ -209,6 +209,21 @@ def _get_dual_dims(run, P):
             run.holds("IDX/dual-dims", c, where(f, st), "every dimension renamed through the involution n_face <-> n_node")
         else:
             run.violation("IDX/dual-dims", c, where(f, st), f"dimension map {d} (applied by name: {applied}) is not the involution n_face <-> n_node")
+        # partial grids: the dual has a face only for nodes with >= 3 faces, so node-centred data cannot be relabelled wholesale
+        cp = f"{f.key}:partial-grid-node-data"
+        part = [st2 for st2 in iter_stmts(f.node.body) if isinstance(st2, ast.If) and "hole_edge_indices" in norm(st2.test)]
+        if not partial_rule:
+            pass  # C18 promises the relabelling for closed grids only
+        elif part:
+            handled = any(isinstance(x, ast.Raise) for x in part[0].body) or any("n_node" in norm(x) and isinstance(x, (ast.If, ast.Assign)) for x in part[0].body)
+            if handled:
+                run.holds("IDX/dual-dims", cp, where(f, part[0]), "partial grids are rejected or their node-centred data restricted to the nodes that get a dual face")
+            else:
+                run.violation("IDX/dual-dims", cp, where(f, part[0]),
+                              "on a partial grid (hole_edge_indices non-empty) the method only warns and then relabels ALL node values as n_face, while the dual grid has a face only for nodes with at least three faces: "
+                              "the n_face dimension of the result differs from its grid's n_face")
+        else:
+            run.incomplete("IDX/dual-dims", cp, where(f), "partial-grid test (hole_edge_indices) not found")
         # the dual data array is attached to the dual grid
         cons = [n for n in ast.walk(f.node) if isinstance(n, ast.Call) and (dotted(n.func) or [""])[-1] == "UxDataArray"]
         c2 = f"{f.key}:dual-grid-attached"
